@@ -94,7 +94,8 @@ def cond3(cell, op, const):
     """Three-valued truth of one condition on one (normalised) cell; const is normalised (list for in/not in)."""
     if op in ("in", "not in"):
         if cell is None:
-            return REJECT if op == "in" else DONTCARE
+            # (a missing value listed explicitly: whether it "equals" a missing cell is a matter of convention - pandas' isin says yes)
+            return REJECT if (op == "in" and not any(c is None for c in const)) else DONTCARE
         if any((c is not None) and _family(c) != _family(cell) for c in const):
             raise Unorderable("mixed families in list")
         hit = any((c is not None) and cmp("==", cell, c) for c in const)
